@@ -26,7 +26,9 @@ KF_TEXT = ("unique_names / mkpipe give two steps the same name when a name that 
 
 TF = ["SumScaler", "VectorScaler", "MaxAbsScaler", "MinMaxScaler", "StandarScaler", "PushNegatives",
       "AddValueToZero", "NegateMinimize", "InvertMinimize", "EqualWeighter", "StdWeighter", "EntropyWeighter",
-      "CRITIC", "CenitDistanceMatrixScaler"]
+      "CRITIC", "CenitDistanceMatrixScaler",
+      # deprecated but public alias classes: names that differ from another step's only in letter case, or not at all
+      "Critic", "CRITIC", "MaxScaler"]
 DMK = ["topsis", "ratio", "refpoint", "electre1", "user"]
 
 
@@ -102,6 +104,15 @@ def run_pipe(case):
             inner = mkpipe(*tfs[1:], dmk)
             pipe = mkpipe(tfs[0], inner)
             flat = tfs
+        elif len(case["steps"]) % 2:
+            # the constructor instead of mkpipe, with the caller's own list of (name, step) pairs - which the caller then
+            # goes on using for something else
+            from skcriteria.utils.unames import unique_names
+            steps_list = list(unique_names(names=[type(x).__name__.lower() for x in tfs + [dmk]], elements=tfs + [dmk]))
+            pipe = SKCPipeline(steps_list)
+            del steps_list[:-1]
+            steps_list.insert(0, ("shift", T.build({"cls": "PushNegatives", "params": {"target": "both"}})))
+            flat = tfs
         else:
             pipe = mkpipe(*tfs, dmk)
             flat = tfs
@@ -122,7 +133,9 @@ def run_pipe(case):
             for k in range(len(tfs) + 1):
                 if k > 0:
                     cur = tfs[k - 1].transform(cur)
-                splits.append(dump_result(pipe[k:].evaluate(cur)))
+                # the same suffix, written with a start counted from the front or from the back
+                sl = pipe[k:] if (k + len(tfs)) % 2 else pipe[k - len(pipe):]
+                splits.append(dump_result(sl.evaluate(cur)))
             out["splits"] = splits
         names = [n for n, _ in pipe.steps]
         out["names"] = names
